@@ -298,6 +298,7 @@ R2_BASES = [['PY+HS', 'HNChc+HCLJ', 'PY+EXP'], ['HNC+HS', 'PY+LJ', 'MSAhc+EXP'],
             ['PY+EXP', 'PY+HS', 'HNChc+HCLJ'], ['MSAhc+EXP', 'HNC+HS', 'PY+LJ']]
 R3_BASES = [['PY+HS', 'HNChc+HCLJ', 'PY+EXP', 'MSAhc+EXP', 'PY+HS', 'HNChc+HCLJ'], ['PY+EXP', 'PY+HS', 'MSAhc+EXP', 'HNChc+HCLJ', 'PY+EXP', 'PY+HS']]
 SCALES = [0.37, 0.7, 3.3]
+SPLITS = [0.1, 0.25, 0.5, 0.9, 0.001, 0.9999]      # incl. a trace component on either side (pair density ~1e-7 .. 1e-9)
 
 
 def run(rec, tier, seed):
@@ -319,7 +320,7 @@ def run(rec, tier, seed):
     kinds = ['PY+HS', 'HNChc+HCLJ', 'PY+EXP', 'HNC+WCA', 'MSAhc+EXP'] if quick else [k for k in build.KIND_NAMES if k != 'MShc+HS']
     for kind in kinds:
         for rho in ([0.5] if quick else [0.3, 0.6]):
-            cases.append({'base': ['mono', kind, rho, 1.0], 'reforms': [['split', f] for f in (0.1, 0.25, 0.5, 0.9)] + [['scale', s] for s in scales[:2]]})
+            cases.append({'base': ['mono', kind, rho, 1.0], 'reforms': [['split', f] for f in SPLITS] + [['scale', s] for s in scales[:2]]})
             for N in (4, 8):
                 cases.append({'base': ['homo', kind, rho, 1.0, N], 'reforms': [['diblock']] + [['scale', scales[0]]]})
     core.pmap(_worker, cases, rec)
@@ -327,7 +328,7 @@ def run(rec, tier, seed):
     rec.note('attempted/converged', [att, conv])
     if att and conv < 0.3 * att:
         raise HarnessError('only %d of %d base systems converged' % (conv, att))
-    rec.note('alphabets', {'rank2_bases': len(r2), 'rank3_bases': len(r3), 'mono_homopolymer_kinds': kinds, 'split_ratios': [0.1, 0.25, 0.5, 0.9],
+    rec.note('alphabets', {'rank2_bases': len(r2), 'rank3_bases': len(r3), 'mono_homopolymer_kinds': kinds, 'split_ratios': SPLITS,
                            'scale_factors': scales, 'permutations': 'all of the type list (2!, 3!) + one renaming'})
     rec.sample(cases[0])
     rec.sample(cases[-1])
